@@ -522,6 +522,79 @@ func laneListBuckets(c *ev.Ctx, id string, seed int64) {
 			}
 		}
 	}
+	// the set of buckets changes between two pages: the bucket that ended a page is deleted (or a new one is created
+	// right behind it) before the next page is asked for. The rest of the chain must still be exactly the caller's
+	// buckets behind the token - none skipped, none twice.
+	for _, u := range users {
+		for _, change := range []string{"delete-token-bucket", "create-behind-token"} {
+			names := append([]string{}, owned[u.ak]...)
+			sort.Strings(names)
+			if len(names) < 4 {
+				continue
+			}
+			cl := root.With(u.ak, u.sk)
+			k := 1 + r.Intn(len(names)-2)
+			rr := cl.Do(&s3c.Req{Method: "GET", Path: "/", Query: s3c.Q("max-buckets", fmt.Sprint(k))})
+			var la listAll
+			xml.Unmarshal(rr.Body, &la)
+			c.Eval(1)
+			if !rr.OK() || la.ContinuationToken == "" || len(la.Buckets.Bucket) != k {
+				c.Observe("list-buckets: first page of the changing-set chain not as expected: " + rr.String())
+				continue
+			}
+			token := la.ContinuationToken
+			var want []string
+			for _, n := range names {
+				if n > token {
+					want = append(want, n)
+				}
+			}
+			switch change {
+			case "delete-token-bucket":
+				if d := cl.DeleteBucket(token); d.Status != 204 && d.Status != 200 {
+					c.Observe("list-buckets: could not delete the token bucket: " + d.String())
+					continue
+				}
+				var rest []string
+				for _, n := range owned[u.ak] {
+					if n != token {
+						rest = append(rest, n)
+					}
+				}
+				owned[u.ak] = rest
+			case "create-behind-token":
+				nb := token + "-x"
+				if cr := cl.CreateBucket(nb); !cr.OK() {
+					c.Observe("list-buckets: could not create a bucket behind the token: " + cr.String())
+					continue
+				}
+				owned[u.ak] = append(owned[u.ak], nb)
+				want = append([]string{nb}, want...)
+				sort.Strings(want)
+			}
+			var got []string
+			for pages := 0; token != "" && pages < len(want)+4; pages++ {
+				rr := cl.Do(&s3c.Req{Method: "GET", Path: "/", Query: s3c.Q("max-buckets", "2", "continuation-token", token)})
+				c.Eval(1)
+				if !rr.OK() {
+					c.Violation("list-buckets:fails", id, map[string]any{"status": rr.String(), "token": token})
+					break
+				}
+				var pg listAll
+				xml.Unmarshal(rr.Body, &pg)
+				for _, bk := range pg.Buckets.Bucket {
+					got = append(got, bk.Name)
+				}
+				token = pg.ContinuationToken
+			}
+			if strings.Join(got, ",") != strings.Join(want, ",") {
+				c.Violation("list-buckets:chain-over-a-changed-bucket-set:"+change, id, map[string]any{"user": u.ak, "first_page_size": k, "token": la.ContinuationToken, "got": got, "want": want})
+			} else {
+				c.Distinct("S|list-buckets|chain|" + change)
+				c.Add("list_buckets_chains_over_a_changed_set", 1)
+			}
+		}
+	}
 }
 
 // ---- lane D: delete-bucket schedules ----------------------------------------
